@@ -169,11 +169,17 @@ def prepared(tier, n_fast=None):
 
 
 def run(tier):
+    # "the largest power the vehicle's curve permits" is decided inside Battery.load/unload: that unit is part of this check
+    import c01
     with prepared(tier) as unit:
-        return corr.standard_run("C10", tier, [unit], 0, 0, sim.SIM_TRUSTED + ["exp/log oracle per strategy step"], RULE, search_factor=1)
+        return corr.standard_run("C10", tier, [unit, c01.UNIT], {unit.name: 0, "battery": 300}, {unit.name: 0, "battery": 3000},
+                                 sim.SIM_TRUSTED + ["exp/log oracle per strategy step"], RULE, search_factor=1)
 
 
 def replay(payload):
+    if payload["input"].get("unit") in ("battery", "glue", "unlimited-float"):
+        import c01
+        return c01.replay(payload)
     case = payload["input"]["case"]
     rec = sim.run_record(case["js"], case["strategy"], case.get("options"), inject_at=case.get("inject_at"))
     v = UNIT.check_property({"rec": rec, "i": case["step"]}, None)
